@@ -52,6 +52,9 @@ def gen_cases(tier, seed):
             if c['bootstrap_iteration'] == 1:
                 c['bootstrap_iteration'] = 20
         c['with_hdf5'] = True
+        if i % 9 == 4:
+            c['bootstrap_iteration'] = int(rng.choice([256, 300, 1000]))
+            c['n_cells'] = min(c['n_cells'], 8)
     return cases
 
 
